@@ -65,6 +65,25 @@ def check_backslash(n, i0, i1, i2, i3, cwd_i, bi):
     return check("".join(BS_ALPH[i] for i in idx), CWDS[hb.conc(cwd_i, 0, 1)], bi)
 
 
+def check_one_to_one(n, i0, i1, i2, cwd_i, bi):
+    """STRICT form of the second sentence of the property for names holding the storage flavour's separator: the virtual
+    path has one segment per component of the location actually addressed (so that the permission lookup and PWD talk
+    about the same place the backend is asked for).  Names over {backslash, 'a'}."""
+    hb.KEY = ""
+    n = hb.conc(n, 1, 3)
+    idx = [hb.conc(i0, 0, 1), hb.conc(i1, 0, 1), hb.conc(i2, 0, 1)][:n]
+    name = "".join(["\\", "a"][i] for i in idx)
+    base = mk_base(bi)
+    user = aioftp.User()
+    user.base_path = base
+    c = aioftp.Connection(current_directory=pathlib.PurePosixPath(CWDS[hb.conc(cwd_i, 0, 1)]), user=user)
+    real, virt = aioftp.Server.get_paths(c, name)
+    if len(real.relative_to(base).parts) != len(virt.parts) - 1:
+        hb.KEY = "separator-in-name-splits-real-path"
+        return False
+    return True
+
+
 def join(lead_i, n, s0, s1, s2, s3):
     return LEADS[lead_i] + "/".join([SEGS[s0], SEGS[s1], SEGS[s2], SEGS[s3]][:n])
 
